@@ -3,6 +3,7 @@ package scen
 import (
 	"cosmossdk.io/math"
 	sdk "github.com/cosmos/cosmos-sdk/types"
+	lpkeeper "github.com/elys-network/elys/x/leveragelp/keeper"
 	lptypes "github.com/elys-network/elys/x/leveragelp/types"
 	perptypes "github.com/elys-network/elys/x/perpetual/types"
 
@@ -26,6 +27,37 @@ func init() {
 		u := w.Users
 		atom := func() math.LegacyDec { return w.Prices["ATOM"] }
 		S := v.Scale
+		// boundary probe: governance sets the leveragelp safety factor to exactly the health a certain
+		// open will have (measured by running that open on a discarded branch); on an otherwise idle
+		// chain the pool does not move during the voting blocks, so the real open lands on the boundary:
+		// health == safety factor is liquidatable, hence the open must be refused
+		if c.Job.Index%2 == 0 && !w.Dead {
+			pr := u[9]
+			probe := &lptypes.MsgOpen{Creator: pr.S(), CollateralAsset: "uusdc", CollateralAmount: math.NewInt(S/3000 + int64(c.Job.Index)), AmmPoolId: 1, Leverage: chain.Dec([]string{"5", "3", "7.5"}[c.Job.Index/2%3]), StopLossPrice: math.LegacyZeroDec()}
+			cc, _ := w.ReadCtx().CacheContext()
+			if _, err := lpkeeper.NewMsgServerImpl(*w.App.LeveragelpKeeper).Open(cc, probe); err == nil {
+				var h math.LegacyDec
+				for _, p := range w.App.LeveragelpKeeper.GetAllPositions(cc) {
+					if p.Address == pr.S() {
+						h = p.PositionHealth
+					}
+				}
+				orig := w.App.LeveragelpKeeper.GetParams(w.ReadCtx())
+				if !h.IsNil() && h.IsPositive() {
+					p2 := orig
+					p2.SafetyFactor = h
+					if w.GovExec("safety factor on the boundary", &lptypes.MsgUpdateParams{Authority: w.Gov, Params: &p2}) {
+						b := w.Step(5, w.Tx(pr, probe))
+						if !w.Dead && b.Txs[1].OK() {
+							c.Ev("boundary_open_accepted")
+						} else {
+							c.Ev("boundary_open_refused")
+						}
+						w.GovExec("safety factor restored", &lptypes.MsgUpdateParams{Authority: w.Gov, Params: &orig})
+					}
+				}
+			}
+		}
 		// directed: a long, a short, a leveraged LP position per owner; one short removes its stop loss
 		w.Step(5,
 			w.Tx(u[3], &perptypes.MsgOpen{Creator: u[3].S(), Position: perptypes.Position_LONG, Leverage: chain.Dec("5"), TradingAsset: "uatom", Collateral: chain.Coin("uusdc", S/2000), TakeProfitPrice: atom().MulInt64(3), StopLossPrice: atom().Mul(chain.Dec("0.9")), PoolId: 1}),
